@@ -235,11 +235,18 @@ def finite_paths(chk, repo):
     mc = repo.by_path('TidalPy/utilities/math/complex.pyx')
 
     def branch(itp, st, v, fr):
-        return False if isinstance(v, Opaque) else None
+        return (v.name == 'isfinite') if isinstance(v, Opaque) else None       # finite arguments: isfinite holds, isinf / isnan / signbit-of-inf tests do not
 
     def glob(itp, mod, nm):
-        if nm in ('THRESH', 'DBL_MAX_4', 'DBL_MAX', 'DBL_MIN'):
+        if nm in ('THRESH', 'DBL_MAX_4', 'DBL_MAX', 'DBL_MIN', 'SCALED_CEXP_LOWER', 'SCALED_CEXP_UPPER'):
             return X.atom(nm, 'pos')
+        if nm == 'LOGE2':
+            return X.fn('log', X.const(2))         # the literal itself is checked against ln 2 below
+        if nm in ('DBL_MANT_DIG', 'DBL_MANT_DIG_INT'):
+            return 53
+        if nm == 'log1p':
+            from ..core.interp import Builtin
+            return Builtin('log1p')
         return None
     x = X.atom('x'); y = X.atom('y')
 
@@ -278,8 +285,11 @@ def finite_paths(chk, repo):
             if n.op == 'fn' and n.val == 'sqrt': out.append(n.args[0])
             stack.extend(n.args)
         return out
+    zz = x + X.I * y
     cases = [('cf_hypot', [x, y], lambda v: (v * v, x * x + y * y), 'cf_hypot(x, y)^2 == x^2 + y^2'),
-             ('cf_csqrt', [x + X.I * y], lambda v: (v * v, x + X.I * y), 'cf_csqrt(z)^2 == z')]
+             ('cf_csqrt', [zz], lambda v: (v * v, zz), 'cf_csqrt(z)^2 == z'),
+             ('cf_cexp', [zz], lambda v: (v, X.fn('exp', zz)), 'cf_cexp(z) == e^x (cos y + i sin y)'),
+             ('cf_clog', [zz], lambda v: (X.fn('exp', v), zz), 'exp(cf_clog(z)) == z (real part log|z|, imaginary part the argument)')]
     for fname, args, ident, label in cases:
         f = need_func(mc, fname)
         res = explore(f, args)
@@ -304,7 +314,7 @@ def finite_paths(chk, repo):
                 n_empty += 1; n_open -= 1; continue
             if not ok:
                 # key by the last statements that distinguish the arm (not by every comparison) so that equivalent arms collapse
-                conds = [f'{"" if o else "not "}({t})' for (_c, _w, t, o) in trace if 'THRESH' in t or 'z_real >= 0' in t or 'z_real > 0' in t]
+                conds = [f'{"" if o else "not "}({t})' for (_c, _w, t, o) in trace if any(k_ in t for k_ in ('THRESH', 'z_real >= 0', 'z_real > 0', 'DBL_MAX_4', 'DBL_MIN', 'SCALED_CEXP', '0.71', '1.73'))]
                 bad.setdefault(' and '.join(conds) or 'main path', (PathExplorer.label(trace), d.describe(got, ref), trace[-1][1] if trace else mc.where(f)))
         chk.note_analysed('finite-argument paths', f'{fname}: {len(res)} paths, {n_open} open arms examined, {n_skipped} special-value / measure-zero arms skipped, {n_empty} contradictory arms')
         if n_open < 2:
